@@ -59,7 +59,8 @@ def floors(tier):
     scale = 1 if tier == 'quick' else 10
     return {'evaluations': 40 * scale, 'actions_train': 12 * scale, 'actions_apply': 10 * scale,
             'actions_serve': 6 * scale, 'actions_perftrack': 6 * scale, 'retrain_checked': 5 * scale, 'raced_actions': 2 * scale,
-            'older_generation_checked': 4 * scale, 'states_compared': 30 * scale, 'hyper_parameters_checked': 60 * scale}
+            'older_generation_checked': 4 * scale, 'states_compared': 30 * scale, 'hyper_parameters_checked': 60 * scale,
+            'commit_window_readers': 6 * scale}
 
 
 def _w(i, style, a=None, t=None, l=None):
@@ -111,7 +112,7 @@ def directed():
 
 HISTORIES = [
     ['train', 'apply', 'serve~race', 'perftrack', 'train', 'apply~race', 'apply@1', 'perftrack'],
-    ['train', 'train', 'serve', 'apply@1', 'perftrack@1', 'train', 'apply', 'serve'],
+    ['train', 'train~window', 'serve', 'apply@1', 'perftrack@1', 'train', 'apply', 'serve'],
     ['train', 'perftrack', 'apply', 'train', 'perftrack', 'serve', 'apply@1'],
 ]
 
@@ -168,7 +169,14 @@ def run_history(ctx, label, expr, history, schedule, index):
                    'epoch': f'e{step}'}
             epoch = job['epoch']
             racer = None
-            if race and model:
+            if race == 'window' and model:
+                # readers of the latest generation run inside this training's commit, after each of its renames
+                reader = {'registry': registry, 'project': 'p', 'release': '1', 'generation': None, 'action': 'apply',
+                          'nonce': f'w{index}x{step}', 'out': os.path.join(workdir, f'{step}w.json'), 'gc': 'default'}
+                with open(reader['out'] + '.job', 'w', encoding='utf-8') as fd:
+                    json.dump(reader, fd)
+                job['window'] = reader['out'] + '.job'
+            elif race and model:
                 # another process trains and commits right after this action's first state read
                 racer = {'registry': registry, 'project': 'p', 'release': '1', 'generation': None, 'action': 'train',
                          'nonce': f'R{index}x{step}', 'out': os.path.join(workdir, f'{step}r.json'), 'gc': 'default'}
@@ -242,6 +250,23 @@ def run_history(ctx, label, expr, history, schedule, index):
                 ctx.count('hyper_parameters_checked', len(want))
                 persisted_before[new] = gens[new]
                 model[new] = fits
+                for window in result.get('windows', ()):
+                    # what a reader saw between two renames of the commit: the previous generation or the complete new one
+                    ctx.count('commit_window_readers')
+                    if not os.path.exists(window['out']):
+                        ctx.inconclusive(f'window reader produced nothing (rc {window["rc"]})')
+                        return
+                    with open(window['out'], encoding='utf-8') as fd:
+                        seen = json.load(fd)
+                    _, _, wxa = lifecycle.source_terms(window['nonce'])
+                    options = [symbolic.stamp(exprgen.apply_with(expr, model[g], wxa), epoch) for g in (last, new)]
+                    got = [lifecycle.decode(b) for b in seen['sink']]
+                    if seen['error'] or got not in ([options[0]], [options[1]]):
+                        ctx.violation('apply-inside-commit-window-not-a-whole-generation',
+                                      f'an apply of the latest generation run after the commit of generation {new} renamed '
+                                      f'{window["renamed"]}: {seen["error"] or [o.show(5) for o in got]}; expected all states of '
+                                      f'generation {last} or of generation {new} [{sig}]', dict(step_witness, window=window['renamed']))
+                        return
                 observed = [lifecycle.decode(b) for b in result['sink']]
                 wanted = symbolic.stamp(den.x, epoch, memo)
                 if observed != [wanted]:
